@@ -34,6 +34,7 @@ func writeEvidence(tier string, seed uint64, digest string, info map[string]inte
 	byK := map[string]int{}
 	byTasks := map[string]int{}
 	noisy, expP, slow, ydiff, missing, trunc := 0, 0, 0, 0, 0, 0
+	noisyNames, slowNames, noisyExample := map[string]int{}, map[string]int{}, map[string]string{}
 	preempted := 0
 	maxTasks := 0
 	coldFirst := 0
@@ -64,6 +65,18 @@ func writeEvidence(tier string, seed uint64, digest string, info map[string]inte
 		}
 		for _, f := range r.Fams {
 			famMode[r.Mode+"/"+f]++
+		}
+		for _, n := range r.NoisyOps {
+			if i := strings.Index(n, "#"); i > 0 {
+				n = n[:i]
+			}
+			noisyNames[n]++
+			if noisyExample[n] == "" {
+				noisyExample[n] = r.NoisyDiff
+			}
+		}
+		for _, n := range r.SlowOps {
+			slowNames[n]++
 		}
 		noisy += r.Noisy
 		expP += r.ExpPanics
@@ -212,6 +225,9 @@ func writeEvidence(tier string, seed uint64, digest string, info map[string]inte
 			"files_with_most_unexecuted_sites":              zeros,
 			"expected_panics_in_baseline":                   expP,
 			"noisy_ops_excluded":                            noisy,
+			"noisy_ops_by_name":                             noisyNames,
+			"noisy_ops_example_diff":                        noisyExample,
+			"too_slow_ops_by_name":                          slowNames,
 			"too_slow_ops_dropped":                          slow,
 			"ops_missing_on_this_tree":                      missing,
 			"ops_with_yield_count_diff":                     ydiff,
